@@ -38,6 +38,39 @@ def one_block(chk, rng, kind, idx):
         mitems.append([0, cid, cps(lab), ni])
     b = api.make_block(kind, nfr)
     api.install(kind, b, items)
+    # the block may have been edited before it is looked into: removals, additions, re-labelling
+    edits = []
+    for _ in range(rng.choice([0, 0, 1, 2, 3])):
+        r = rng.random()
+        if r < 0.4 and items:
+            j = rng.randrange(len(items))
+            if kind == "EM":
+                j = labels.index(labels[j])            # removeSignal(label) removes the first carrier
+                b.removeSignal(labels[j])
+            elif kind == "EV":
+                del b.events[j]
+            else:
+                b.tracks = [t for k, t in enumerate(b.tracks) if k != j]
+            edits.append("remove %d" % j)
+            del items[j], labels[j], mitems[j]
+        elif r < 0.7:
+            lab = rng.choice(api.LABEL_POOL)
+            salt = rng.randrange(2)
+            ni = nfr if kind != "EV" else rng.choice([0, 1, 3])
+            it = api.make_item(kind, lab, ni, salt)
+            api.install(kind, b, [it]) if kind != "EV" else b.events.append(it)
+            items.append(it)
+            labels.append(lab)
+            mitems.append([0, content.setdefault((lab, salt, ni), len(content) + 1), cps(lab), ni])
+            edits.append("add %r" % lab)
+        elif items:
+            j = rng.randrange(len(items))
+            lab = rng.choice(api.LABEL_POOL)
+            items[j].label = lab
+            labels[j] = lab
+            mitems[j] = [0, 5000 + len(edits) * 10 + j, cps(lab), mitems[j][3]]
+            edits.append("relabel %d -> %r" % (j, lab))
+    n = len(items)
     before_ids = [id(x) for x in api.items_of(kind, b)]
     before_bytes = api.encoded(b)
     ks, others = keys_for(items, labels, kind, n)
@@ -47,8 +80,9 @@ def one_block(chk, rng, kind, idx):
         j = rng.randrange(n)
         item_keys.append((mitems[j], items[j], "present"))
         lab = labels[j]
-        salt, ni = next((s, k) for (l, s, k) in content if l == lab and content[(l, s, k)] == mitems[j][1])
-        item_keys.append((mitems[j], api.make_item(kind, lab, ni, salt), "equal copy"))
+        hit = next(((s, k) for (l, s, k) in content if l == lab and content[(l, s, k)] == mitems[j][1]), None)
+        if hit is not None:
+            item_keys.append((mitems[j], api.make_item(kind, lab, hit[1], hit[0]), "equal copy"))
     item_keys.append(([0, 999, cps("nobody"), nfr], api.make_item(kind, "nobody", nfr, 7), "absent"))
     other_kind = "EV" if kind != "EV" else "EM"
     foreign = api.make_item(other_kind, "c7", nfr)
@@ -68,10 +102,11 @@ def one_block(chk, rng, kind, idx):
         obs.append((g, c))
     it = [id(x) for x in b]
     ln = len(b)
-    what = {"kind": kind, "labels": labels, "nframes": nfr}
+    what = {"kind": kind, "labels": labels, "nframes": nfr, "edits_before_lookup": edits}
     chk.note_case((kind, tuple(labels), nfr), n >= 2 and len(set(labels)) < n or n >= 1)
     chk.count("%s items=%d" % (kind, n))
     chk.count("duplicate labels" if len(set(labels)) < n else "distinct labels")
+    chk.count("edited before lookup: %d" % len(edits))
     # ---- oracle: the property's clauses on the implementation alone
     found = None
     if ln != len(it):
